@@ -72,7 +72,7 @@ namespace glm
 
 		hsv.z = Max;
 
-		if(!equal(Max, static_cast<T>(0), epsilon<T>()))
+		if(!equal(Max, static_cast<T>(0), epsilon<T>()) && Delta > static_cast<T>(0))
 		{
 			hsv.y = Delta / hsv.z;
 			T h = static_cast<T>(0);
@@ -94,7 +94,7 @@ namespace glm
 		}
 		else
 		{
-			// If r = g = b = 0 then s = 0, h is undefined
+			// If r = g = b then s = 0, h is undefined
 			hsv.y = static_cast<T>(0);
 			hsv.x = static_cast<T>(0);
 		}
